@@ -72,7 +72,7 @@ def cats(spec, m: str = "") -> str:
 
 def tasks(thorough: bool):
     maxf, dm, dv = (3, 3, 2) if thorough else (2, 3, 1)
-    vecs = G.enumerate_models(dm, maxf)
+    vecs = G.enumerate_models(dm, maxf, twins=True)
     out = []
     for v in vecs:
         out.append(("c03.meta", dict(vec=v, maxf=maxf, free_values=True), 0, ()))
